@@ -180,7 +180,7 @@ def run_single(prop, seed, preset, want_case, schema_knobs=None, doc_knobs=None,
     r = base_result(tape, out, viol)
     r["digest"] = run_digest(out.trace, out.events, out.resp, repr(out.exc))
     r["case_digest"] = case.digest()
-    r["sched_kinds"] = {sched[0]: 1}
+    r["sched_kinds"] = {sched[0] + ("+eager" if sched[2].endswith("+eager") else ""): 1}
     r["faults"] = dict(plan.faults_fired)
     probes = dict(getattr(case.doc, "probes", {}))
     for k, v in plan.probes.items():
